@@ -1350,6 +1350,19 @@ fn rosomaxa_phase(case: &Value) {
     println!("{}", serde_json::to_string(&json!({"size": population.size(), "selected": selected, "phase": format!("{:?}", population.selection_phase())})).unwrap());
 }
 
+/// Density clustering (C17): the real `create_clusters` on points 0..n with the neighbourhood lists of the case.
+fn dbscan(case: &Value) {
+    use vrp_core::algorithms::clustering::dbscan::create_clusters;
+    let n = case["points"].as_u64().unwrap() as usize;
+    let min_points = case["min_points"].as_u64().unwrap() as usize;
+    let points: Vec<usize> = (0..n).collect();
+    let neighbours: Vec<Vec<usize>> =
+        case["neighbours"].as_array().unwrap().iter().map(|l| l.as_array().unwrap().iter().map(|x| x.as_u64().unwrap() as usize).collect()).collect();
+    let clusters = create_clusters(points.iter(), min_points, |p: &usize| neighbours[*p].iter().map(|q| &points[*q]));
+    let out: Vec<Vec<usize>> = clusters.iter().map(|c| c.iter().map(|p| **p).collect()).collect();
+    println!("{}", serde_json::to_string(&json!({"clusters": out})).unwrap());
+}
+
 /// `Statistic + Statistic` through the public operator.
 fn statistic_sum(case: &Value) {
     use vrp_pragmatic::format::solution::{Statistic, Timing};
@@ -1405,6 +1418,9 @@ fn main() {
     }
     if case["kind"] == "group_state" {
         return group_state(&case);
+    }
+    if case["kind"] == "dbscan" {
+        return dbscan(&case);
     }
     if case["kind"] == "rosomaxa_phase" {
         return rosomaxa_phase(&case);
